@@ -81,7 +81,7 @@ func (rule *RuleWorkflowCall) checkWorkflowCallUsesLocal(call *WorkflowCall) {
 	u := call.Uses
 	m, err := rule.cache.FindMetadata(u.Value)
 	if err != nil {
-		rule.Error(u.Pos, err.Error())
+		rule.Error(u.Pos, escapeNonPrint(err.Error()))
 		return
 	}
 	if m == nil {
